@@ -113,12 +113,20 @@ func cmdVC(args []string) {
 			continue
 		}
 		fmt.Printf("== %s: %d obligations, %d facts, vcgen %.2fs bv=%v\n", key, len(x.obls), len(x.facts), time.Since(t0).Seconds(), x.bv)
-		rs, vac := x.SolveFiltered(SolveOpts{Dir: dir, QuickMs: 3000, FallbackS: 30})
+		rs, vac := x.SolveFiltered(SolveOpts{Dir: dir, QuickMs: 2000, FallbackS: 8})
 		if vac {
 			fmt.Println("  !! VACUOUS: assumptions are unsatisfiable")
 			fmt.Println("     ", x.FindVacuity(dir))
 		}
+		cnt := map[string]int{}
 		for _, r := range rs {
+			cnt[r.Status]++
+		}
+		fmt.Printf("   summary: %v\n", cnt)
+		for _, r := range rs {
+			if os.Getenv("GOVC_ALL") == "" && r.Status == "unsat" {
+				continue
+			}
 			fmt.Printf("  %-8s %-8s %6.2fs %s  [%s] %s\n", r.Status, r.Solver, r.Sec, r.O.Name, r.O.Pos, r.O.Text)
 			if *dump {
 				fmt.Printf("      pc: %s\n      goal: %s\n", r.O.PC, r.O.Goal)
